@@ -1,0 +1,32 @@
+//! C11: public wrappers around the range-extension thunk code (`thunks::verif_c11`,
+//! `ElfAArch64::{thunk_config, write_thunk}`).
+
+use crate::platform::Arch as _;
+
+/// Real `assign_thunk_blocks` on `(start, end)` ranges in address order with an injectable
+/// `max_branch_range`. Returns `(num_blocks, assign-callback sequence (object, block, is_owner))`.
+pub fn assign_thunk_blocks(
+    ranges: &[(u64, u64)],
+    max_branch_range: u64,
+) -> (usize, Vec<(u32, u32, bool)>) {
+    crate::thunks::verif_c11::assign(ranges, max_branch_range)
+}
+
+/// `(min_branch_range, thunk_size, MAXIMUM_THUNK_BYTES_PER_BLOCK)` of the AArch64 ELF backend.
+pub fn aarch64_thunk_constants() -> (u64, u64, u64) {
+    let config = crate::elf_aarch64::ElfAArch64::thunk_config().expect("aarch64 has thunks");
+    (
+        config.min_branch_range,
+        config.thunk_size,
+        crate::thunks::verif_c11::maximum_thunk_bytes_per_block(),
+    )
+}
+
+/// Real `ElfAArch64::write_thunk`: the bytes of the thunk placed at `thunk_address` that jumps to
+/// `target_address`.
+pub fn aarch64_write_thunk(thunk_address: u64, target_address: u64) -> Vec<u8> {
+    let config = crate::elf_aarch64::ElfAArch64::thunk_config().expect("aarch64 has thunks");
+    let mut buf = vec![0u8; config.thunk_size as usize];
+    crate::elf_aarch64::ElfAArch64::write_thunk(thunk_address, target_address, &mut buf);
+    buf
+}
